@@ -164,6 +164,88 @@ def check_tree(d, M, seed):
         shutil.rmtree(scratch, ignore_errors=True)
 
 
+TWIN_RECIPES = [dict(file="a-decimal.md", title="A decimal", servings=2, links=[], raw="# A decimal for 2\n\nAdd {0.5} tsp.\n\n    0.5 tsp salt\n    1.5 kg flour\n    2.0 eggs\n"),
+                dict(file="b-fraction.md", title="B fraction", servings=2, links=[], raw="# B fraction for 2\n\nAdd {1/2} tsp.\n\n    1/2 tsp salt\n    1 1/2 kg flour\n    2 eggs\n"),
+                dict(file="c-upper.md", title="C upper", servings=2, links=[], raw="# C upper for 2\n\n    1/2 TSP salt\n    3/2 Kg flour\n")]
+
+
+def check_fresh_processes(d, M, seed):
+    """the same source tree generated by fresh interpreters (listing sorted / reversed) and by this long-running process gives the same files"""
+    import json
+    import os
+    import subprocess
+    import sys
+    out = []
+    scratch = gen_site.scratch_root()
+    try:
+        src = scratch / "my site"
+        gen_site.write_tree(d, src)
+        env = dict(os.environ, PYTHONPATH=os.pathsep.join(p for p in sys.path if p))
+        results = {}
+        for mode in ("sorted", "rev"):
+            p = subprocess.run([sys.executable, "-m", "harness.site_subproc", str(src), str(scratch / ("out-" + mode)), str(M), mode, str(seed)],
+                               cwd=os.path.dirname(os.path.dirname(os.path.dirname(os.path.abspath(__file__)))), env=env, stdout=subprocess.PIPE, stderr=subprocess.PIPE, text=True, timeout=300)
+            try:
+                results[mode] = json.loads(p.stdout.strip().splitlines()[-1])
+            except Exception:
+                return [("C17:fresh-process-generation-failed", (p.stderr or p.stdout)[-300:])]
+        try:
+            with Listing("sorted"):
+                generate_static_site(src, scratch / "out-here", M)
+            results["here"] = digest(scratch / "out-here")
+        except Exception as e:  # noqa
+            results["here"] = {"raises": type(e).__name__}
+        if results["sorted"] != results["rev"]:
+            diff = sorted(f for f in set(results["sorted"]) | set(results["rev"]) if results["sorted"].get(f) != results["rev"].get(f))
+            out.append(("C17:output-depends-on-listing-order-or-seed", "fresh interpreters, listing sorted vs reversed: %r differ" % diff[:4]))
+        if results["sorted"] != results["here"]:
+            diff = sorted(f for f in set(results["sorted"]) | set(results["here"]) if results["sorted"].get(f) != results["here"].get(f))
+            out.append(("C17:output-depends-on-earlier-work-of-the-process", "fresh interpreter vs this process: %r differ" % diff[:4]))
+        return out
+    finally:
+        shutil.rmtree(scratch, ignore_errors=True)
+
+
+def check_inplace_edit(d, M):
+    """a readme and a recipe rewritten in place (nothing added or removed) between two generations in one process"""
+    import copy
+    out = []
+    d = copy.deepcopy(d)
+    if d["readme"] is None:
+        d["readme"] = dict(file="README.md", title="Front page", links=[])
+    scratch = gen_site.scratch_root()
+    try:
+        src = scratch / "my site"
+        gen_site.write_tree(d, src)
+        with Listing("sorted"):
+            generate_static_site(src, scratch / "out1", M)
+        for rel, dd in gen_site.walk(d):
+            if dd["readme"]:
+                dd["readme"]["title"] = dd["readme"]["title"] + " rewritten"
+                links = "\n\n".join(("![%s](%s)" if lab.startswith("I") else "[%s](%s)") % (lab, url) for lab, url, _ in dd["readme"]["links"])
+                p = (src / rel / dd["readme"]["file"]) if rel else (src / dd["readme"]["file"])
+                with open(p, "r+") as f:        # the same file, rewritten in place: the directory itself is not touched
+                    f.seek(0)
+                    f.write("# %s\n\nhello\n\n%s\n" % (dd["readme"]["title"], links))
+                    f.truncate()
+        with Listing("sorted"):
+            generate_static_site(src, scratch / "out2", M)
+        fresh = scratch / "fresh" / "my site"
+        gen_site.write_tree(d, fresh)
+        recipe_directory._cached_compile_markdown.cache_clear()
+        with Listing("sorted"):
+            generate_static_site(fresh, scratch / "out3", M)
+        if digest(scratch / "out2") != digest(scratch / "out3"):
+            a, b = digest(scratch / "out2"), digest(scratch / "out3")
+            diff = sorted(f for f in set(a) | set(b) if a.get(f) != b.get(f))
+            out.append(("C17:edit-not-reflected-in-second-generation", "after rewriting the readme files in place: %r differ from a fresh generation" % diff[:4]))
+        return out
+    except Exception as e:  # noqa
+        return [("C17:regeneration-after-edit-raises", type(e).__name__)]
+    finally:
+        shutil.rmtree(scratch, ignore_errors=True)
+
+
 def gen_case(rng, force_equal=False):
     d = gen_site.gen_tree(rng, rng.randint(0, 2), gen_site.SAFE_NAMES, servings_pool=(None, 1, 2))
     if force_equal == 'case':
@@ -203,11 +285,34 @@ def oracle(run):
             if sig not in seen:
                 seen.add(sig)
                 run.violate(sig, detail, {"site": c14.d_json(d), "M": M})
+        if i % 4 == 1 and not any(r.get("raw") for _, dd in gen_site.walk(d) for r in dd["recipes"]):
+            run.case(("inplace-edit", gen_site.tree_sexp(d), M), True, kind="inplace-edit")
+            for sig, detail in check_inplace_edit(d, M):
+                if sig not in seen:
+                    seen.add(sig)
+                    run.violate(sig, detail, {"site": c14.d_json(d), "M": M, "inplace": True})
+    # fresh interpreters: amounts of equal value written as a decimal in one recipe and as a fraction in another
+    import copy
+    for i in range(run.budget(2, 20)):
+        d, M = gen_case(rng)
+        d = copy.deepcopy(d)
+        d["recipes"] = [r for r in d["recipes"] if not r.get("raw")] + copy.deepcopy(TWIN_RECIPES)
+        run.case(("fresh-processes", gen_site.tree_sexp(d), M), True, kind="fresh-processes")
+        seen = set()
+        for sig, detail in check_fresh_processes(d, M, i):
+            if sig not in seen:
+                seen.add(sig)
+                run.violate(sig, detail, {"site": c14.d_json(d), "M": M, "fresh": True})
 
 
 def replay(run, obj):
     r = obj["replay"]
-    res = check_tree(c14.d_unjson(r["site"]), r["M"], 1)
+    if r.get("fresh"):
+        res = check_fresh_processes(c14.d_unjson(r["site"]), r["M"], 0)
+    elif r.get("inplace"):
+        res = check_inplace_edit(c14.d_unjson(r["site"]), r["M"])
+    else:
+        res = check_tree(c14.d_unjson(r["site"]), r["M"], 1)
     for x in res:
         print(*x)
     return bool(res)
